@@ -33,7 +33,7 @@ TECHNIQUE = ("bounded exhaustive enumeration on the real solver: full product ma
              "non-material parameters, fixed time/point lattices; textbook reference model of the six moduli; finite-difference "
              "and algebraic oracles on every returned record (explicit-state exploration, mode L)")
 CLAIM = ("Every material of the (G, nu) lattice is specified to Blake(...) through each of its 15 parameter pairs (and the no-argument "
-         "default), with every vector of non-material parameters within K deviations of the default (K=1 quick, full product thorough); "
+         "default), with every vector of non-material parameters of the full product lattice (2 values per parameter quick, 3 thorough), and five non-positive-definite materials through every pair; "
          "every successful construction is checked against the textbook identities and the reference material, and called at every "
          "lattice time on a radial lattice from the cavity wall to beyond the front, where the wave equation, causality, the wall "
          "traction, the strain-displacement relations and Hooke's law are evaluated at every point. Exhaustive over the stated alphabet; "
